@@ -77,11 +77,12 @@ def _build(variant, quiet):
     hsh = content_hash(variant)
     out = os.path.join(BUILD, "%s-%s" % (variant, hsh))
     if os.path.exists(os.path.join(out, "OK")):
+        os.utime(out)           # last use (stale builds are pruned by age since last use)
         return out
     # prune stale builds of this variant (keep the few most recent: a concurrent check of another tree may be using one)
     olds = sorted(glob.glob(os.path.join(BUILD, variant + "-*")), key=lambda d: os.path.getmtime(d), reverse=True)
-    for d in olds[4:]:
-        if time.time() - os.path.getmtime(d) > 3600:
+    for d in olds[8:]:
+        if time.time() - os.path.getmtime(d) > 6 * 3600:
             shutil.rmtree(d, ignore_errors=True)
     os.makedirs(os.path.join(out, "obj"))
     t0 = time.time()
